@@ -176,6 +176,7 @@ def _run_sketch(sx, name, scenario, iterations, probes, jitter):
         _int = [i for i in range(len(base)) if i not in _b]
         lead_, fol_ = _int[0], _int[-1]
         if scenario == "free+symlink":
+            fol_ = _int[1]      # the interior point next to the leader across the plane x = 1.5: its mirror image keeps the sketch valid
             # the follower starts as the mirror image of the leader about the plane x = 1.5
             P0[fol_] = np.array([3 - P0[lead_][0], P0[lead_][1], P0[lead_][2]], dtype=P0.dtype)
     sketch = cb.MappedSketch(P0, quads)
@@ -195,7 +196,7 @@ def _run_sketch(sx, name, scenario, iterations, probes, jitter):
         links = [(lead, j, cb.TranslationLink(P0[lead], P0[j])) for j in others]
     elif scenario == "free+symlink":
         clamps[lead] = cb.FreeClamp(P0[lead])
-        fol = interior[-1]
+        fol = interior[1]
         links = [(lead, fol, cb.SymmetryLink(P0[lead], P0[fol], [2, 0, 0], [1.5, -3, 0.5]))]
         relation = lambda G: [3 - G[lead][0], G[lead][1], G[lead][2]]
     elif scenario == "radial+rotlink":
